@@ -110,6 +110,19 @@ fn variants(k: usize, plan: &ClassPlan) -> (CClass, CClass) {
 		base.methods.push(CMember { access: 1, name: format!("pm{i}"), desc: "()V".into(), attrs: vec![Attr::Code(code)] });
 		i += 1;
 	}
+	// one class in four already carries side annotations of its own - on the class and on every second member, naming
+	// CLIENT or SERVER whatever side the item will turn out to be on (an earlier merge, a hand-written annotation): the
+	// mark of the merge is still due
+	let pre = plan.stream.iter().fold(0u32, |a, b| a.wrapping_mul(31).wrapping_add(*b as u32));
+	if pre % 4 == 0 {
+		let side = |k: u32| if (pre >> 3).wrapping_add(k) % 2 == 0 { "SERVER" } else { "CLIENT" };
+		base.attrs = with_annotation(&base.attrs, true, side_annotation(side(0)));
+		for (k, m) in base.fields.iter_mut().chain(base.methods.iter_mut()).enumerate() {
+			if k % 2 == 0 {
+				m.attrs = with_annotation(&m.attrs, false, side_annotation(side(k as u32)));
+			}
+		}
+	}
 	let itfs: Vec<String> = ITF_POOL.iter().map(|s| s.to_string()).collect();
 	let mut c = base.clone();
 	let mut s = base.clone();
